@@ -6,6 +6,7 @@ import CimbaModel.Sim.Basic
 import CimbaModel.Sim.S3Hold
 import CimbaModel.Sim.S3PInvCor
 import CimbaModel.Sim.S3All
+import CimbaModel.Sim.S3Built
 
 namespace CimbaModel.Props.C04
 open CimbaModel CimbaModel.Sim CimbaModel.Event CimbaModel.Generated CimbaModel.KPQ
@@ -483,5 +484,29 @@ example : ∃ w : World, InitOkG w ∧ SideOk w ∧ w.ev.pending ≠ [] ∧ w.pr
       · cases hs
       · cases hs
   exact ⟨pushEv w0 aStart 1 0 0 0, hI.1, hI.2, by simp, rfl, rfl, rfl, fun fuel => (hI.1.all hI.2).runAll fuel _⟩
+
+/-! ### the hypotheses hold for every scenario the harness can express
+
+`Built w` (Sim/S3Built): `w` is obtained from the empty world by the construction steps of the scenario loader
+(Drivers/SimMain.lean: `res`, `pool`, `buf`, `oq`, `pq`, `cond` with fresh guards, `proc` with a program, `sub`scriptions,
+autostart events), where every command of every program satisfies the documented precondition `CmdOk`. -/
+
+theorem loader_worlds_satisfy_invariant {w : World} (h : Built w) (hsz : w.procs.size < 2 ^ 31) :
+    InitOkG w ∧ SideOk w ∧ AllInv w ∧ ∀ fuel, AllInv (runAll fuel w) :=
+  ⟨(h.binv.initOk hsz).1, (h.binv.initOk hsz).2, h.allInv hsz, h.run hsz⟩
+
+/- non-vacuity: a scenario with a resource, a condition subscribed to it, and two processes that compete for the resource -/
+example : Built (autostart (autostart (subscribe (addProc (addProc (addCond (addRes {})) 0
+    #[(.acquire 0, "acquire 0"), (.hold 1, "hold 1"), (.release 0, "release 0")]) 1
+    #[(.timerAdd 0 2 7, "timer"), (.acquire 0, "acquire 0"), (.condWait 0 0 0 0, "wait")]) 0 1) 0) 1) := by
+  refine .start 1 (.start 0 (.sub 0 1 (.proc 1 _ (.proc 0 _ (.cond (.res .empty)) ?_) ?_)))
+  · intro i c t h
+    rcases i with _ | _ | _ | i <;> cases h <;> trivial
+  · intro i c t h
+    rcases i with _ | _ | _ | i
+    · cases h; show encSig 7 ≠ 0; decide
+    · cases h; trivial
+    · cases h; trivial
+    · cases h
 
 end CimbaModel.Props.C04
